@@ -50,6 +50,16 @@ func (e *ExprEvaluator) Eval(expression string, env map[string]any) (any, error)
 	return result, nil
 }
 
+// stringBuiltin replaces the evaluator's own string(): that one prints with fmt, which
+// never returns for a value that contains itself. Values are printed the way every
+// other position prints them.
+var stringBuiltin = expr.Function("string", func(params ...any) (any, error) {
+	if len(params) != 1 {
+		return nil, fmt.Errorf("string() expects 1 argument, got %d", len(params))
+	}
+	return helpers.Sprint(params[0]), nil
+}, new(func(any) string))
+
 // getProgram returns a cached compiled program or compiles a new one.
 func (e *ExprEvaluator) getProgram(expression string) (*vm.Program, error) {
 	e.mu.RLock()
@@ -60,7 +70,7 @@ func (e *ExprEvaluator) getProgram(expression string) (*vm.Program, error) {
 	e.mu.RUnlock()
 
 	// Compile the expression
-	prog, err := expr.Compile(expression, expr.AllowUndefinedVariables(), expr.DisableBuiltin("count"))
+	prog, err := expr.Compile(expression, expr.AllowUndefinedVariables(), expr.DisableBuiltin("count"), stringBuiltin)
 	if err != nil {
 		return nil, fmt.Errorf("compile error: %w", err)
 	}
